@@ -133,6 +133,39 @@ def get_class(flavour):
     return cls
 
 
+_factory_classes = {}
+
+
+def run_factory(cfg, local, replies):
+    """the REAL Connection.factory() on the harness class: the connection is constructed by factory itself, the scripted
+    replies arrive (synchronously, as a very fast server) before factory starts waiting; timeout 0.
+    -> 'ready' when factory returned the connection, else the class tag of what it raised ('timeout' for OperationTimedOut)"""
+    from cassandra import OperationTimedOut
+    fl = cfg['flavour']
+    if fl not in _factory_classes:
+        base = get_class(fl)
+
+        def finit(self, endpoint, **kw):
+            base.__init__(self, **kw)
+            for r in type(self)._script:
+                deliver(self, r)
+        _factory_classes[fl] = type('HSFactory' + fl, (base,), {'__init__': finit, '_script': ()})
+    cls = _factory_classes[fl]
+    cls._script = tuple(replies)
+    auth = {'none': None, 'sasl': PlainTextAuthenticator('u', 'p'), 'dict': {'username': 'u', 'password': 'p'}}[cfg['auth']]
+    with patched_codecs([NAMES[i] for i in local]):
+        try:
+            conn = cls.factory('verif-host', 0, authenticator=auth, compression=cfg['compression'],
+                               protocol_version=cfg['version'], allow_beta_protocol_version=cfg['version'] == 6)
+            out = 'ready'
+        except OperationTimedOut:
+            out = 'timeout'
+        except Exception as e:          # whatever factory raises for a failed connect attempt
+            out = err_tag(e) if err_tag(e) != 'exception' else 'exception:' + type(e).__name__
+    pump()
+    return out
+
+
 class patched_reactors(object):
     """twistedreactor.reactor -> immediate stub for the duration of a harness run."""
     def __enter__(self):
